@@ -58,6 +58,16 @@ func (c *AttrCache) ConfigureNegativeCaching(enable bool, ttl time.Duration) {
 	if ttl > 0 {
 		c.negativeTTL = ttl
 	}
+
+	// Negative entries must not outlive the feature being switched off
+	if !enable {
+		for path, cached := range c.cache {
+			if cached.isNegative {
+				c.removeFromAccessLog(path)
+				delete(c.cache, path)
+			}
+		}
+	}
 }
 
 // Get retrieves cached attributes if they exist and are not expired.
@@ -243,18 +253,13 @@ func (c *AttrCache) Put(path string, attrs *NFSAttrs) {
 
 // PutNegative adds a negative cache entry (file not found)
 func (c *AttrCache) PutNegative(path string) {
-	// Only store negative entries if enabled
-	c.mu.RLock()
-	enabled := c.enableNegative
-	negativeTTL := c.negativeTTL
-	c.mu.RUnlock()
-
-	if !enabled {
-		return
-	}
-
 	c.mu.Lock()
 	defer c.mu.Unlock()
+
+	// Only store negative entries if enabled
+	if !c.enableNegative {
+		return
+	}
 
 	// Check if entry already exists
 	existing, exists := c.cache[path]
@@ -283,7 +288,7 @@ func (c *AttrCache) PutNegative(path string) {
 
 	c.cache[path] = &CachedAttrs{
 		attrs:       nil, // No attributes for negative entry
-		expireAt:    time.Now().Add(negativeTTL),
+		expireAt:    time.Now().Add(c.negativeTTL),
 		listElement: listElem,
 		isNegative:  true,
 	}
